@@ -166,6 +166,8 @@ def _start_clocks():
     ac = clk.AppClock
     ac._sched_lock = m.RtMain._main_lock
     ac._tick_cond = _VTModule.Condition()
+    if hasattr(ac, '_tick_pending'):
+        ac._tick_pending = False
     ac._scheduler = clk.Scheduler(ac, drift=True, recursive=False)
     ac._scheduler.queue._monitored = True
     ac._thread = _VTModule.Thread(target=ac._run, name=ac.__name__,
@@ -201,6 +203,7 @@ class Execution:
             _settle()
             for cid, tempo in (tempo_clocks or {}).items():
                 self.tempo_clocks[cid] = self.new_tempo_clock(tempo)
+                self.tempo_clocks[cid]._thread.name = f'TempoClock-{cid}'
                 _settle()
         # exploration starts here
         self.chooser = vt.Chooser(prefix)
